@@ -277,13 +277,15 @@ class WebSocket(object):
         if self.state.session is not None:
             self.state.session.force_disconnect()
 
-    def on_disconnect(self):
+    def on_disconnect(self, state=None):
         """Called on disconnect."""
-        if self.state.session is not None:
-            self.state.session.close()
+        if state is None:
+            state = self.state
+        if state.session is not None:
+            state.session.close()
         # In this order; see WebsocketSession._check_writable
-        self.state.closed = True
-        self.state.closing = False
+        state.closed = True
+        state.closing = False
 
     def feed(self, data):
         """Feed with data from the socket, and yield any events.
@@ -296,6 +298,9 @@ class WebSocket(object):
         """
         if self.is_closed:
             return
+        # The state of the connection this data belongs to; a later call
+        # to connect() replaces self.state.
+        state = self.state
         try:
             for message in self.stream.feed(data):
                 if isinstance(message, Response):
@@ -342,7 +347,7 @@ class WebSocket(object):
             # The generator has exited prematurely, due to an exception
             # handling the event.
             log.warning('disconnecting websocket')
-            self.on_disconnect()
+            self.on_disconnect(state)
 
     def build_request(self):
         """Get the websocket request (in bytes).
